@@ -14,7 +14,7 @@ import (
 )
 
 var c10Families = []string{"valid", "mutated", "bytes", "natural-join", "union-chain", "cte-cycle", "brackets", "quotes", "from-path", "parallel-fail", "bg-fail", "await", "distinct-subq-star",
-	"object-compare", "group-object", "limit-weird", "deep-nesting", "doc-shape", "native-types", "nil-doc", "vars-nil", "selector-in-sql"}
+	"object-compare", "group-object", "limit-weird", "deep-nesting", "doc-shape", "native-types", "nil-doc", "vars-nil", "selector-in-sql", "parallel-fresh"}
 
 func init() {
 	floor := []string{}
@@ -138,7 +138,7 @@ func c10Build(c *fw.Case) c10Case {
 	fam := c10Families[c.Idx%len(c10Families)]
 	if c.Idx >= 6*len(c10Families) {
 		// after the systematic prefix: weight towards the generative families
-		fam = gen.Pick(c.R, append([]string{"valid", "mutated", "mutated", "mutated", "bytes", "bg-fail", "parallel-fail"}, c10Families...))
+		fam = gen.Pick(c.R, append([]string{"valid", "mutated", "mutated", "mutated", "bytes", "bg-fail", "parallel-fail", "parallel-fresh", "parallel-fresh"}, c10Families...))
 	}
 	oi := (c.Idx / len(c10Families)) % 8
 	if c.Idx >= 8*len(c10Families) {
@@ -314,6 +314,22 @@ func c10Build(c *fw.Case) c10Case {
 		if c.Chance(0.3) {
 			cs.extra = append(cs.extra, genql.WithVars(map[string]any{}), genql.WithConstants(map[string]any{"k": []any{1.0}}))
 		}
+	case "parallel-fresh":
+		// a PARALLEL nested-loop join over column names this process has never
+		// seen: every worker goroutine misses the selector cache at the same time
+		sfx := fmt.Sprintf("_%d_%d", c.Seed, c.Idx)
+		l := make([]any, 4+c.Intn(8))
+		for i := range l {
+			l[i] = map[string]any{"k" + sfx: float64(i % 5), "v" + sfx: float64(i)}
+		}
+		r := make([]any, 3+c.Intn(6))
+		for i := range r {
+			r[i] = map[string]any{"m" + sfx: float64(i % 4), "w" + sfx: float64(i)}
+		}
+		cs.doc = map[string]any{"l" + sfx: l, "r" + sfx: r}
+		j := gen.Pick(c.R, []string{"PARALLEL JOIN", "PARALLEL LEFT JOIN", "PARALLEL RIGHT JOIN", "PARALLEL STRAIGHT_JOIN"})
+		cs.sql = fmt.Sprintf("SELECT * FROM l%s x %s r%s y ON x.k%s %s y.m%s OR x.v%s = y.w%s", sfx, j, sfx, sfx, gen.Pick(c.R, []string{"<", ">=", "!="}), sfx, sfx, sfx)
+		cs.opts = OptSet{}
 	case "selector-in-sql":
 		cs.sql = "SELECT `" + gen.Pick(c.R, []string{"arr[9].e", "arr[each].e.x", "obj{k|date}", "obj.k.z", "arr[(2:1)]", "s1[0]", "nosuch=>arr", "arr::[5]", "'", "arr[", "obj{", "<-<-<-<-x"}) + "` AS v FROM t1"
 	}
